@@ -22,7 +22,11 @@
  *   op of tid 0: when walk_descents returns, snapshot `-`).  snapshot = one of
  *   W/R/T per worker (descent_trials[k].state), `-` before the first create /
  *   after the array is freed; owner = mutex owner tid or -1.  tid-0 L tokens
- *   carry a 5th field: alpha index per worker (x = NULL).
+ *   carry a 5th field: alpha index per worker (x = NULL).  A worker's U token
+ *   emitted with its own state still RUN (= it has just finished a computation)
+ *   carries `d<alpha index>,<x changed 0|1>,<record == oracle trial 0|1>`.
+ *   END carries teardown=ok|bad|none: at pthread_mutex_destroy/cond_destroy the
+ *   mutex was free, the wait set empty and every worker had exited.
  *  Commands (stdin) / replies (stdout, one line each unless noted):
  *   P <pseed> <nF 1..8> <nneg 0..nF>
  *      -> PROB m= nF= expect= feasible= resid=<key,...>
@@ -95,6 +99,8 @@ int psv_cond_signal(pthread_cond_t *);
 int psv_create(pthread_t *, const pthread_attr_t *, void *(*)(void *), void *);
 int psv_join(pthread_t, void **);
 void psv_exit(void *) __attribute__((noreturn));
+int psv_mutex_destroy(pthread_mutex_t *);
+int psv_cond_destroy(pthread_cond_t *);
 }
 
 /* ------------------------------------------------------------------ rng */
@@ -151,6 +157,7 @@ struct Run {
 	int owner, n, cur, status, mismatch_at;
 	volatile bool abort_;
 	bool freed;
+	int teardown;              /* bit 0: mutex destroyed, bit 1: cond destroyed, bit 2: a teardown condition was violated */
 	descent_trial *base;
 	const double *abase;
 	std::string toks;
@@ -177,6 +184,9 @@ static int g_bound = -1;
 static __thread Run *tl_R = NULL;
 static __thread Th *tl_me = NULL;
 
+/* data of a finished computation, compared with the thread-free oracle (defined below, after Prob) */
+static std::string compute_data(Run *R, int w);
+
 static std::string snapshot(Run *R) {
 	if (!R->base || R->freed) return "-";
 	std::string s;
@@ -195,6 +205,11 @@ static void emit(Run *R, int tid, char op) {
 	R->toks += snapshot(R);
 	snprintf(buf, sizeof buf, ":%d", R->owner);
 	R->toks += buf;
+	/* a worker that arrives at its next call after the unlock that followed RUN has just finished a computation */
+	if (tid >= 1 && op == 'U' && R->base && !R->freed && tid - 1 < R->n && R->base[tid - 1].state == RUN) {
+		R->toks += ":d";
+		R->toks += compute_data(R, tid - 1);
+	}
 	if (tid == 0 && op == 'L') {
 		R->toks += ':';
 		if (!R->base || R->freed) { R->toks += '-'; return; }
@@ -408,6 +423,22 @@ extern "C" void psv_exit(void *) {
 	pthread_exit(NULL);            /* R must not be touched after the post */
 }
 
+/* Teardown (PsV.C12_teardown_safe): destroying a locked mutex or a condition variable with waiters, or freeing the
+ * trial records while a worker is alive, is undefined behaviour. */
+static void teardown_check(int bit) {
+	Run *R = tl_R;
+	if (!R) fatal("psv call from a thread not under scheduler control", 9);
+	R->teardown |= bit;
+	if (R->owner != -1) R->teardown |= 4;
+	for (size_t i = 0; i < R->th.size(); i++) {
+		if (R->th[i]->ws != 0) R->teardown |= 4;
+		if (i >= 1 && !R->th[i]->exited) R->teardown |= 4;
+	}
+	if ((int)R->th.size() != R->n + 1) R->teardown |= 4;
+}
+extern "C" int psv_mutex_destroy(pthread_mutex_t *m) { teardown_check(1); return pthread_mutex_destroy(m); }
+extern "C" int psv_cond_destroy(pthread_cond_t *c) { teardown_check(2); return pthread_cond_destroy(c); }
+
 static void *run_main(void *p) {
 	Run *R = (Run *)p;
 	Th *me = R->th[0];
@@ -429,6 +460,8 @@ struct Prob {
 	bool ok;
 	int nF, nvar, m, expect, feasible;
 	std::vector<double> A, b, x, xF, resid, ex;
+	std::vector<std::vector<double> > xcs;   /* oracle: x_c of every trial index */
+	std::vector<std::vector<long> > H1s;     /* oracle: H1 of every trial index */
 	std::vector<long> F, eH1;
 	double eres;
 	cholmod_sparse *As;
@@ -477,6 +510,26 @@ static void oracle(Prob &p) {
 	for (int i = 0; i < nF; i++) p.ex[p.F[i]] = xc[p.expect][i];
 	p.eH1 = H1[p.expect];
 	p.eres = p.feasible ? p.resid[p.expect] : 1e300;
+	p.xcs = xc; p.H1s = H1;
+}
+
+/* `<alpha index>,<x differs from its entry value: 0|1>,<record equals the oracle's trial of that index bit for bit: 0|1>`
+ * taken when worker w arrives at the lock that publishes its result (= end of its compute region). */
+static std::string compute_data(Run *R, int w) {
+	Prob &p = g_p;
+	descent_trial *d = &R->base[w];
+	char buf[64];
+	long k = (R->abase && d->alpha) ? (long)(d->alpha - R->abase) : -1;
+	int xdiff = memcmp(R->x->x, &p.x[0], p.nvar * sizeof(double)) != 0;
+	int receq = 0;
+	if (k >= 0 && k < p.m && d->x_c && (long)d->x_c->nrow == (long)p.nF) {
+		receq = memcmp(d->x_c->x, &p.xcs[k][0], p.nF * sizeof(double)) == 0
+		    && d->nH1 == (long)p.H1s[k].size()
+		    && (d->nH1 == 0 || memcmp(d->H1, &p.H1s[k][0], d->nH1 * sizeof(long)) == 0)
+		    && memcmp(&d->residual, &p.resid[k], sizeof(double)) == 0;
+	}
+	snprintf(buf, sizeof buf, "%ld,%d,%d", k, xdiff, receq);
+	return buf;
 }
 
 static void free_prob(Prob &p) {
@@ -598,7 +651,7 @@ static RunOut do_run(int n, const Policy &pol) {
 	Prob &p = g_p;
 	Run *R = new Run();
 	R->owner = -1; R->n = n; R->cur = 0; R->status = ST_RUNNING; R->mismatch_at = -1;
-	R->abort_ = false; R->freed = false; R->base = NULL; R->abase = NULL;
+	R->abort_ = false; R->freed = false; R->teardown = 0; R->base = NULL; R->abase = NULL;
 	R->pol = pol; R->dstep = 0; R->preempt = 0;
 	R->toks.reserve(1024);
 	sem_init(&R->main_sem, 0, 0);
@@ -648,7 +701,8 @@ static RunOut do_run(int n, const Policy &pol) {
 	else if (R->status == ST_DEADLOCK) snprintf(buf, sizeof buf, "deadlock feasible=- nH1=-");
 	else snprintf(buf, sizeof buf, "mismatch@%d feasible=- nH1=-", R->mismatch_at);
 	o.line += buf;
-	snprintf(buf, sizeof buf, " calcs=%d same=%d diff=%s sched=", R->calcs, o.same ? 1 : 0, o.same ? "-" : diff.c_str());
+	snprintf(buf, sizeof buf, " calcs=%d same=%d diff=%s teardown=%s sched=", R->calcs, o.same ? 1 : 0, o.same ? "-" : diff.c_str(),
+	    (R->teardown & 4) ? "bad" : ((R->teardown & 3) == 3 ? "ok" : "none"));
 	o.line += buf; o.line += sched_str(R->sched);
 
 	cholmod_l_free_dense(&R->x, &g_c); cholmod_l_free_dense(&R->xF, &g_c);
